@@ -477,3 +477,7 @@ CHECKS['C13']['jobs'].append(dict(name='manifest_rulevars', harness='c13_inputs.
 SCENARIOS += ['dyndep_input_also_order_only']     # 44
 CHECKS['C11']['jobs'] += _hist_jobs('CHECK_C11', 2, 3, [44], extra_defs=['SINGLE_EDIT'], reach=('built', 'incremental-build'))
 CHECKS['C11']['jobs'][-1]['quick']['bounds'] = CHECKS['C11']['jobs'][-1]['quick']['bounds'].replace('any subset of sources edited', 'at most one source edited') + '; the input the dyndep file adds is already listed as an order-only input of the statement'
+CHECKS['C08']['jobs'].append(dict(name='longnames', harness='c08_buildlog.cc', units=_C08_UNITS, defines=['MODE_LONGNAMES'], reach=['reloaded', 'appended', 'recompacted', 'restatted'], limits=dict(max_steps=200000000, time=1500),
+    bounds='three statements whose output names are L, 3 and L+1 bytes long, L from 60 lengths between 1 and 65537 clustered around 256, 512, 1024, 2048, 4096; written by the real writer (one output recorded twice), reloaded, then {reload, append, recompact, restat} and reloaded again'))
+CHECKS['C09']['jobs'].append(dict(name='older_mtime', harness='c09_depslog.cc', units=_C09_UNITS, defines=['DAMAGE_TEAR', 'CONCRETE_SEQ', 'SEQ_BASE=3', 'VERIF_SEQS=1', 'VERIF_MAXREC=4'], reach=['tear-none', 'tear-some', 'recompact-2', 'recompact-3', 'done'],
+    bounds='1 sequence x 1..4 records in which an output is recorded again with the same dependencies and an older mtime (and once more unchanged); torn at every byte offset, 4 choices of appended record, recompaction never / in session 2 / in session 3'))
